@@ -144,8 +144,10 @@ QuiesceLiveOK(H, N) ==
                                             /\ ~ \E c \in DOMAIN H : c > q /\ H[c].t = "csnd" /\ H[c].m.k \in {"CLOSE", "REQ"} /\ H[c].m.sub = s}
                  gotp(q) == {g \in DOMAIN H : g > q /\ Is(H[g], "cgot", "SEVENT") /\ H[g].m = H[q].m}
              IN /\ \A q \in must : gotp(q) # {}
-                /\ \A q1, q2 \in must : q1 < q2 =>
-                     (\E g1 \in gotp(q1), g2 \in gotp(q2) : g1 < g2)
+                /\ LET G == [q \in must |-> gotp(q)]
+                       lo(q) == CHOOSE g \in G[q] : \A x \in G[q] : g <= x
+                       hi(q) == CHOOSE g \in G[q] : \A x \in G[q] : g >= x
+                   IN \A q1 \in must : \A q2 \in must : (q1 < q2 /\ G[q1] # {} /\ G[q2] # {}) => lo(q1) < hi(q2)
 
 QuiesceOK(H, N) == QuiesceRepliesOK(H, N) /\ QuiesceLiveOK(H, N)
 =============================================================================
